@@ -556,6 +556,72 @@ pub fn c07(c: &mut Collector, seed: u64, shard: u64, nshards: u64, thorough: boo
             }
         }
     }
+    // the checked move operations are the gate in front of `move_unchecked`, whose precondition is
+    // legality: sweep EVERY (source, destination[, promotion]) through them on positions full of
+    // checks (double checks above all) and compare with the rules; a wrongly admitted move is followed
+    // for two plies so that the trapping builds show what it leads to
+    {
+        let mut fam = Vec::new();
+        let mut frng = Rng::new(mix3(seed, shard, 0x6A7E));
+        workload::double_check_family(&mut frng, if small { 2 } else if thorough { 400 } else { 60 }, &mut fam);
+        workload::evasion_family(&mut frng, if small { 1 } else if thorough { 200 } else { 30 }, &mut fam);
+        for cr in &fam {
+            let p = &cr.pre;
+            let Ok(board) = real::parse(&p.to_fen()) else { continue };
+            c.eval();
+            c.count("gate-sweep-positions");
+            if p.checkers().len() == 2 {
+                c.count("gate-sweep-double-checks");
+            }
+            c.journal(&format!("gate sweep {}", p.to_fen()));
+            let legal: std::collections::HashSet<Mv> = p.legal_moves().into_iter().collect();
+            let mut admitted = 0u64;
+            let step = if small { 5 } else { 1 };
+            for from in (0..64u8).step_by(step) {
+                for to in 0..64u8 {
+                    let promos: &[Option<Kind>] = if matches!(p.board[from as usize], Some((_, Kind::P))) && (to / 8 == 0 || to / 8 == 7) { &[None, Some(Kind::Q), Some(Kind::N)] } else { &[None] };
+                    for pr in promos {
+                        let m = Mv { from, to, promo: *pr };
+                        let r = catch_unwind(AssertUnwindSafe(|| board.move_new(mv(m))));
+                        match r {
+                            Err(_) => {
+                                let site = LAST_PANIC.with(|l| l.borrow().clone());
+                                c.violation("safe-api-panicked", &site, format!("move_new({}) on {} panicked at {site}", m.uci(), p.to_fen()), obj().set("fen", p.to_fen()).set("move", m.uci()));
+                            }
+                            Ok(Some(nb)) => {
+                                admitted += 1;
+                                if !legal.contains(&m) {
+                                    c.violation(
+                                        "unchecked-precondition-breached",
+                                        if p.checkers().len() == 2 { "illegal-move-admitted-in-double-check" } else { "illegal-move-admitted" },
+                                        format!("{}: move_new admits {} which is not legal ({} checker(s)); it is passed on to move_unchecked", p.to_fen(), m.uci(), p.checkers().len()),
+                                        obj().set("fen", p.to_fen()).set("move", m.uci()),
+                                    );
+                                    // what it leads to (aborts in the trapping builds, which is then reported as a crash)
+                                    let _ = catch_unwind(AssertUnwindSafe(|| {
+                                        let replies: Vec<_> = nb.legals().collect();
+                                        for r1 in replies {
+                                            if let Some(nb2) = nb.move_new(r1) {
+                                                let _ = nb2.legals().count();
+                                                let _ = nb2.state();
+                                            }
+                                        }
+                                    }));
+                                }
+                            }
+                            Ok(None) => {
+                                if legal.contains(&m) {
+                                    c.count("gate-sweep:legal-move-refused (a C01/C02 matter, not judged here)");
+                                }
+                            }
+                        }
+                    }
+                }
+            }
+            c.add("gate-sweep-probes", (64 / step as u64) * 64);
+            d.u(admitted);
+        }
+    }
     // printing: every text rendering the crates offer, on boundary values
     {
         c.eval();
